@@ -243,6 +243,9 @@ class WorkerPool:
       iterate_batch_size: int = 0,
   ):
     self._workers = []
+    # Number of run() calls currently using a worker of this pool.
+    self._run_lock = threading.Lock()
+    self._run_users: dict[Worker, int] = {}
     for worker in names_or_workers:
       worker = Worker(worker) if isinstance(worker, str) else worker
       self._workers.append(
@@ -424,7 +427,11 @@ class WorkerPool:
     worker = None
     start_time = time.time()
     while worker is None:
-      worker = self.next_idle_worker(maybe_acquire=True)
+      with self._run_lock:
+        worker = self.next_idle_worker(maybe_acquire=True)
+        if worker is not None:
+          self._run_users[worker] = self._run_users.get(worker, 0) + 1
+          break
       time.sleep(0)
       if time.time() - start_time > 180:
         raise ValueError('No worker is available.')
@@ -433,8 +440,13 @@ class WorkerPool:
     try:
       result = worker.submit(task).result()
     finally:
-      # Also releases the worker when the task fails.
-      worker.release()
+      # Also releases the worker when the task fails. Only releases what this
+      # pool still owns, and only when no other run() of this pool uses it.
+      with self._run_lock:
+        self._run_users[worker] -= 1
+        if not self._run_users[worker]:
+          del self._run_users[worker]
+          worker.release(self)
     return result
 
   def iterate(
